@@ -28,14 +28,15 @@ meta = {
     "id": nid, "round": int(rnd), "property": nid.split("-")[0], "base_commit": base,
     "needs_to_manifest": agent.get("needs", ""),
     "files": files,
-    "author": "fresh sub-agent given only the property text and a scratch worktree; asked for (1) a fault needing two cooperating conditions and (2) one needing an unusual size/count/position/value",
+    "author": ("fresh sub-agent given only the property text and a scratch worktree; the two changes had to sit in two prescribed places (tools/round7_areas.json)" if int(rnd) >= 7 else
+               "fresh sub-agent given only the property text and a scratch worktree; asked for (1) a fault needing two cooperating conditions and (2) one needing an unusual size/count/position/value"),
     "confirmed": {
         "how": f"in the scratch worktree {wt}: git apply patch.diff; cargo test --workspace --no-fail-fast --offline (tools/confirm_seeds.sh); demonstration: run.sh / compiler run demo/main.gom --dump-ast --dump-go with the clean and the changed compiler",
         "tests_ok": conf["tests_ok"], "tests_failed_same_16_go_toolchain_tests": conf["tests_failed"],
         "stable_baseline_tests_not_passing": conf["stable_baseline_tests_not_passing"],
         "demo_output_differs_from_clean_compiler": conf["demo_output_differs"],
     },
-    "checks_run": "git -C /repo apply patch.diff; ./check <ID> quick (VERIF_SEED default); git -C /repo checkout -- .  (tools/try_seeds.sh)",
+    "checks_run": "git apply patch.diff in a private copy of /repo and /verif (tools/mklab.sh, tools/lab_try.sh) with the checks as they stood when the change arrived, then - after a strengthening - git -C /repo apply patch.diff; ./check <ID> quick (VERIF_SEED default); git -C /repo checkout -- .  (tools/try_seeds.sh)",
     "caught_by": caught, "signatures": sigs, "history": hist,
 }
 json.dump(meta, open(f"{dst}/meta.json", "w"), indent=1)
